@@ -35,6 +35,7 @@ func runC07(c *Check) {
 	c07RemoveExact(c, P+".O9", r)
 	c07TeardownOrder(c, P+".O8", r)
 	c07LockOrder(c, P+".O8", r)
+	r.LA.ReportLeaks(c, P+".O8", r.Funcs)
 	c04LookupCopy(c, P+".O2", r)
 	c07Decorator(c, P)
 }
